@@ -278,7 +278,7 @@ def _is_m110(data):
 
 
 def run_direct(stmts, acks, status=None, late_hs=False, settle=0.02, do_disconnect=True, readings=False,
-               deadline=2.5, mode="serial", lose_at=0):
+               deadline=2.5, mode="serial", lose_at=0, slow=None):
     """Drive the real SerialWriter/PrintrunWriter. stmts: list of bytes handed to write(); acks: the reply line
     (bytes) the device gives to each statement; status: {k: [lines pushed before the ack of statement k]};
     late_hs: the ok of the second start-up M110 is released only after the first write() began."""
@@ -324,7 +324,7 @@ def run_direct(stmts, acks, status=None, late_hs=False, settle=0.02, do_disconne
     pw.POLLING_INTERVAL = 0.003
     with patched(hub):
         w = SerialWriter("/mocked/port", 115200) if mode == "serial" else None
-        w.set_timeout(5.0)
+        w.set_timeout(5.0 if not slow else slow[1])      # slow = (statement, writer timeout, acknowledgement latency)
         th = threading.Thread(target=lambda: results.__setitem__("connect", _guard(w.connect)), daemon=True)
         th.start()
         t0 = time.monotonic()
@@ -363,6 +363,8 @@ def run_direct(stmts, acks, status=None, late_hs=False, settle=0.02, do_disconne
                 for line in status.get(k, []):
                     hub.push(line)
                 time.sleep(settle)             # a window in which a too-eager write() can return; never a verdict
+                if slow and slow[0] == k:
+                    time.sleep(slow[2])        # an acknowledgement slower than the writer's own timeout
                 if lose_at == k:
                     with hub.lock:             # the link drops before this statement is acknowledged
                         hub.closed = True
